@@ -112,11 +112,16 @@ Proof. exact policy_of_upstream. Qed.
 Print Assumptions C13_policy_of_upstream.
 
 (* The login callback on a Host applies the routed upstream's login gate and binds the issued
-   session to that Host and to the routed upstream's provider. *)
-Theorem C13_login_of_upstream : forall (re_match : str -> str -> bool) (lower : str -> str)
-    (fixed : bool) (dflt : str) cfg l u,
+   session to THAT Host and to the routed upstream's provider — wherever the sign-in was opened
+   (l_start): a session is issued exactly when the opening request was answered by a sign-in
+   redirect (so a flow record exists) and the callback host's upstream admits the user. *)
+Theorem C13_login_of_upstream : forall (re_match : str -> str -> bool) (re_replace : str -> str -> str -> str)
+    (lower : str -> str) (fixed : bool) (dflt : str) cfg l u,
   route_of re_match cfg (l_host l) = RUp u ->
+  (flow_started re_match cfg l = true <->
+     r_kind (handle re_match re_replace lower fixed dflt cfg (start_request l)) = KSignIn) /\
   (forall s, snd (callback re_match lower fixed dflt cfg l) = Some s <->
+     flow_started re_match cfg l = true /\
      login_admit lower (u_policy u) (l_email l) (l_groups l) = true /\
      s = {| s_slug := provider_slug fixed dflt u; s_upstream := l_host l; s_email := l_email l |}) /\
   (forall s, snd (callback re_match lower fixed dflt cfg l) = Some s ->
@@ -124,8 +129,34 @@ Theorem C13_login_of_upstream : forall (re_match : str -> str -> bool) (lower : 
   (snd (callback re_match lower fixed dflt cfg l) = None ->
      r_cookie (fst (callback re_match lower fixed dflt cfg l)) = CkNone) /\
   r_slug (fst (callback re_match lower fixed dflt cfg l)) = Some (provider_slug fixed dflt u).
-Proof. exact login_of_upstream. Qed.
+Proof.
+  intros re_match re_replace lower fixed dflt cfg l u Hr.
+  split; [exact (flow_started_spec re_match re_replace lower fixed dflt cfg l)|].
+  exact (login_of_upstream re_match lower fixed dflt cfg l u Hr).
+Qed.
 Print Assumptions C13_login_of_upstream.
+
+(* A sign-in opened on one host and closed by a callback on another yields a session that is
+   accepted on no host other than the callback's — in particular not on the host it was opened on,
+   whose upstream never judged the user. *)
+Theorem C13_cross_host_flow : forall (re_match : str -> str -> bool) (re_replace : str -> str -> str -> str)
+    (lower : str -> str) (fixed : bool) (dflt : str) cfg l s q,
+  snd (callback re_match lower fixed dflt cfg l) = Some s -> q_cookie q = Some s -> q_host q <> l_host l ->
+  accepted (handle re_match re_replace lower fixed dflt cfg q) = false.
+Proof. exact cross_host_flow. Qed.
+Print Assumptions C13_cross_host_flow.
+
+Theorem C13_cross_host_flow_nonvacuous :
+  let '(st, tr) := run ex_match ex_replace lower_ascii true google ex_cfg init
+      [ELogin ex_cross;
+       ERequest {| q_host := h_y; q_path := page; q_cookie := Some ex_sess |};
+       ERequest {| q_host := h_x; q_path := page; q_cookie := Some ex_sess |}] in
+  flow_started ex_match ex_cfg ex_cross = true /\
+  route_of ex_match ex_cfg h_x <> route_of ex_match ex_cfg h_y /\
+  logins st = [Some (h_y, ex_sess)] /\
+  map (fun er => accepted (snd er)) tr = [false; true; false].
+Proof. exact ex_cross_host_nonvacuous. Qed.
+Print Assumptions C13_cross_host_flow_nonvacuous.
 
 (* Isolation, over ALL histories of logins and requests on any hosts in any order: a session
    issued by a callback on host h1 is never accepted on a request whose Host differs from h1 —
